@@ -111,7 +111,7 @@ type c12Round struct {
 func c12(ctx *core.Ctx) {
 	quietLogs()
 	defer restful.EnableTracing(false)
-	ctx.Rule("rounds of W mutator goroutines (each owns one WebService key /k<i>: Add/Remove of a fresh WebService, and one route key /d<i>/r/{id:regex}: Route/RemoveRoute on its own dynamic-routes service (empty whenever the route is withdrawn) and a third key /dyn/s<i>/{id:regex} on the dynamic-routes service all mutators share, each generation with another regular expression; an OPTIONS filter and 0-5 further container filters are installed, every service has a filter of its own (each 200 answer must carry exactly its own chain) and readers also send OPTIONS; Remove and RemoveRoute are now and then repeated for something no longer registered; handlers return a unique generation) and R reader goroutines probing dynamic and stable URLs; both routers x {ServeHTTP, Dispatch}; every fourth round with trace logging on; yields injected through If-conditions (inside the read-locked selection) and a container filter. Monitors: Go race detector; client-boundary history {op, key, gen, call, return} checked by porcupine per key against a register over {absent, gen}; stable URLs must always get their fixed answer; panics; blocked-goroutine state detector. Non-trivial = a read that overlapped a write of its own key; distinct by (round configuration, key, observed value class).")
+	ctx.Rule("rounds of W mutator goroutines (each owns one WebService key /k<i>: Add/Remove of a fresh WebService, and one route key /d<i>/r/{id:regex}: Route/RemoveRoute on its own dynamic-routes service (empty whenever the route is withdrawn) and a third key /dyn/s<i>/{id:regex} on the dynamic-routes service all mutators share, and a fourth key /mk<i>/r whose single route changes its method M<gen> with every generation (read off the Allow header of a 405), each generation with another regular expression; an OPTIONS filter and 0-5 further container filters are installed, every service has a filter of its own (each 200 answer must carry exactly its own chain) and readers also send OPTIONS; Remove and RemoveRoute are now and then repeated for something no longer registered; handlers return a unique generation) and R reader goroutines probing dynamic and stable URLs; both routers x {ServeHTTP, Dispatch}; every fourth round with trace logging on; yields injected through If-conditions (inside the read-locked selection) and a container filter. Monitors: Go race detector; client-boundary history {op, key, gen, call, return} checked by porcupine per key against a register over {absent, gen}; stable URLs must always get their fixed answer; panics; blocked-goroutine state detector. Non-trivial = a read that overlapped a write of its own key; distinct by (round configuration, key, observed value class).")
 	ctx.Assume("schedules are not reproducible: evidence reports the overlap actually observed", "a porcupine timeout is inconclusive, never a violation")
 	rounds := ctx.N(64, 6000)
 	var totalOps, totalOverlap, partitions int
@@ -182,6 +182,15 @@ func c12(ctx *core.Ctx) {
 			dyns[m].SetDynamicRoutes(true)
 			c.Add(dyns[m])
 		}
+		// a fourth key family: per mutator a service whose single route changes its METHOD with every generation
+		// ("M<gen>"); readers send DELETE and read the generation off the Allow header of the 405
+		mdyns := make([]*restful.WebService, rd.Mutators)
+		for m := range mdyns {
+			mdyns[m] = new(restful.WebService).Path(fmt.Sprintf("/mk%d", m))
+			mdyns[m].Filter(ownerFilter(fmt.Sprintf("/mk%d", m)))
+			mdyns[m].SetDynamicRoutes(true)
+			c.Add(mdyns[m])
+		}
 		c.Filter(c.OPTIONSFilter) // OPTIONS requests walk the routes as well
 
 		hist := &histRec{}
@@ -235,6 +244,7 @@ func c12(ctx *core.Ctx) {
 				skey2 := fmt.Sprintf("/dyn/s%d", m)
 				spath := ""
 				sharedOn := false
+				methGen := 0
 				var ws *restful.WebService
 				routeOn := false
 				for i := 0; i < rd.OpsPer; i++ {
@@ -303,6 +313,27 @@ func c12(ctx *core.Ctx) {
 						sharedOn = false
 					}
 					runtime.Gosched()
+					// method key: withdraw the route of the last generation, then (next step) add one with another method
+					mkey := fmt.Sprintf("/mk%d", m)
+					if methGen == 0 {
+						methGen = int(atomic.AddInt64(&gen, 1))
+						call := now()
+						mdyns[m].Route(mdyns[m].Method(fmt.Sprintf("M%d", methGen)).Path("/r").To(genHandler(methGen)))
+						hist.add(porcupine.Operation{ClientId: m, Input: regIn{mkey, opAdd, methGen}, Call: call, Output: 0, Return: now()})
+					} else {
+						call := now()
+						mdyns[m].RemoveRoute(mkey+"/r", fmt.Sprintf("M%d", methGen))
+						hist.add(porcupine.Operation{ClientId: m, Input: regIn{mkey, opRemove, 0}, Call: call, Output: 0, Return: now()})
+						methGen = 0
+						if i%2 == 1 {
+							// straight on to the next generation: two changes in quick succession
+							methGen = int(atomic.AddInt64(&gen, 1))
+							call = now()
+							mdyns[m].Route(mdyns[m].Method(fmt.Sprintf("M%d", methGen)).Path("/r").To(genHandler(methGen)))
+							hist.add(porcupine.Operation{ClientId: m, Input: regIn{mkey, opAdd, methGen}, Call: call, Output: 0, Return: now()})
+						}
+					}
+					runtime.Gosched()
 				}
 			}(m)
 		}
@@ -314,6 +345,39 @@ func c12(ctx *core.Ctx) {
 				n := 0
 				for atomic.LoadInt32(&stop) == 0 && n < 900 {
 					n++
+					if n%5 == 2 {
+						// a request that is refused with 405: its Allow header names the methods of ONE registration state
+						mk := (n/5 + rdr) % rd.Mutators
+						key := fmt.Sprintf("/mk%d", mk)
+						dreq := rt.Req{Method: "DELETE", Path: key + "/r"}
+						call := now()
+						o := rt.Run(c, rd.Entry, &dreq)
+						ret := now()
+						if o.Panicked {
+							atomic.AddInt32(&panics, 1)
+							firstPanic.Store("DELETE " + key + "/r: " + o.Panic)
+							continue
+						}
+						val := -2
+						switch o.Status {
+						case 404:
+							val = 0
+						case 405:
+							if al := rt.ParseAllow(o.Rec.Hdr().Get("Allow")); len(al) == 1 && strings.HasPrefix(al[0], "M") {
+								if g, err := strconv.Atoi(al[0][1:]); err == nil {
+									val = g
+								}
+							}
+						}
+						if val == -2 {
+							atomic.AddInt32(&stableBad, 1)
+							firstBad.Store(fmt.Sprintf("DELETE %s/r answered status %d Allow %q: neither 404 nor a 405 naming the one method of a registered generation", key, o.Status, o.Rec.Hdr()["Allow"]))
+							continue
+						}
+						ctx.Count("allow_header_reads", 1)
+						hist.add(porcupine.Operation{ClientId: client, Input: regIn{key, opRead, 0}, Call: call, Output: val, Return: ret})
+						continue
+					}
 					k := (n + rdr) % (3*rd.Mutators + 2)
 					switch {
 					case k < 3*rd.Mutators:
